@@ -19,13 +19,14 @@ func NewExec() func(words []string) string {
 // ---- one case: ops on the implementation + the property's own oracle after every op ----------------
 
 type kase struct {
-	r        *hk.Run
-	e        *Exec
-	prevRows map[int]bool
-	acks     int
-	work     int // copy / drain / restart ops
-	live     bool
-	dead     bool // a watchdog fired (or too many did in this run): no further ops in this case
+	r         *hk.Run
+	e         *Exec
+	prevRows  map[int]bool
+	acks      int
+	work      int // copy / drain / restart ops
+	live      bool
+	prevRowsM []map[int]bool // multi cases: per handler
+	dead      bool           // a watchdog fired (or too many did in this run): no further ops in this case
 }
 
 // Stall budget: each watchdog hit costs its watchdog time, and the finding is recorded with its replay
@@ -59,8 +60,8 @@ func (k *kase) op(line string) string {
 	ws := strings.Fields(line)
 	if len(ws) > 0 {
 		all, live := Stalls()
-		if (k.live && ws[0] == "settle" && live >= maxLiveStalls) ||
-			(!k.live && (ws[0] == "drain" || ws[0] == "drainfirst") && all-live >= maxRunStalls) {
+		if (k.live && (ws[0] == "settle" || ws[0] == "msettle") && live >= maxLiveStalls) ||
+			(!k.live && (ws[0] == "drain" || ws[0] == "drainfirst" || ws[0] == "msettle") && all-live >= maxRunStalls) {
 			k.dead = true
 			k.r.Hit("skipped-after-repeated-stalls")
 			return "skipped"
@@ -140,6 +141,19 @@ func (k *kase) op(line string) string {
 			k.work++
 		}
 	}
+	if k.e.multi != nil {
+		if len(ws) > 0 && ws[0] == "mup" && out == "ack" {
+			k.acks++
+		}
+		if len(ws) > 0 && (ws[0] == "msettle" || ws[0] == "mrestart") {
+			k.work++
+		}
+		settled := len(ws) == 1 && ws[0] == "msettle" && out != "bad-op"
+		if !k.live || settled {
+			k.judgeMulti(settled)
+		}
+		return out
+	}
 	if k.live && (len(ws) == 0 || ws[0] != "settle") {
 		// while the real loop runs concurrently only quiescent states are compared and judged
 		return out
@@ -193,7 +207,94 @@ func (k *kase) judge() {
 
 // finish runs the failure-free continuation (restart + drain, or settle in live mode) and evaluates
 // the liveness part of the statement.
+// judgeMulti is the oracle of a source with several sync destinations, per destination: rows leave
+// a handler's queue only after ITS destination holds the blob; bytes identical; an acknowledged
+// upload (every hook succeeded) is at each destination or in each queue; and, at a settled state,
+// every blob the source stored is at every destination whose own hook did not fail for it – a
+// failing hook of handler A must not change what handler B does. For the handler whose own hook
+// failed the caveat of F-C19-2 applies (delivered unless a restart came first).
+func (k *kase) judgeMulti(settled bool) {
+	m := k.e.multi
+	v := m.observe()
+	ops := k.r.CaseOps()
+	if v.Foreign > 0 {
+		k.r.Fail("queue-row-malformed", "foreign refs in a multi case", "none", v.String(), ops)
+	}
+	if k.prevRowsM == nil {
+		k.prevRowsM = make([]map[int]bool, len(v.H))
+	}
+	for j, h := range v.H {
+		name := fmt.Sprintf("handler %d of %d", j+1, len(v.H))
+		if len(h.BadRows) > 0 {
+			k.r.Fail("queue-row-malformed", name, "rows ref -> size", v.String(), ops)
+		}
+		for i := range k.prevRowsM[j] {
+			if _, at := h.Dst[i]; !has(h.Rows, i) && !at {
+				k.r.Fail("row-deleted-before-dest-ack", fmt.Sprintf("%s: row of blob %d left the queue, its destination does not hold it", name, i), "row kept", v.String(), ops)
+			}
+		}
+		k.prevRowsM[j] = map[int]bool{}
+		for _, i := range h.Rows {
+			k.prevRowsM[j][i] = true
+		}
+		for i, same := range h.Dst {
+			if !same {
+				k.r.Fail("dest-bytes-differ", fmt.Sprintf("%s: bytes of blob %d differ", name, i), "identical", v.String(), ops)
+			}
+			if !has(v.Src, i) {
+				k.r.Fail("dest-blob-not-in-source", fmt.Sprintf("%s: blob %d", name, i), "subset of source", v.String(), ops)
+			}
+		}
+		for _, i := range v.Acked {
+			if _, at := h.Dst[i]; !at && !has(h.Rows, i) {
+				k.r.Fail("acked-blob-without-row", fmt.Sprintf("%s: upload of blob %d was acknowledged; it is neither at this destination nor in this queue", name, i), "row present", v.String(), ops)
+			}
+		}
+		if !settled {
+			continue
+		}
+		if len(h.Rows) > 0 || len(h.Need) > 0 {
+			k.r.Fail("pending-left-after-recovery", name+": rows or needCopy not empty after a failure-free drain", "empty", v.String(), ops)
+		}
+		for _, i := range v.Src {
+			if _, at := h.Dst[i]; at {
+				continue
+			}
+			if m.hookFailed[i][j+1] {
+				// this handler's OWN hook failed for the blob and a restart came before it copied it
+				k.r.Fail("unacked-source-blob-not-delivered-after-restart", fmt.Sprintf("%s: its own queue write failed during the upload of blob %d, a restart followed; the blob never reaches this destination", name, i), "delivered", v.String(), ops)
+				continue
+			}
+			var failed []string
+			for jj := range m.hookFailed[i] {
+				failed = append(failed, fmt.Sprint(jj))
+			}
+			sort.Strings(failed)
+			k.r.Fail("multi-healthy-destination-missed-blob", fmt.Sprintf("%s never gets blob %d although its own hook did not fail (hooks that failed during that upload: handler %s): a failing receive hook of one sync handler changed what another does", name, i, strings.Join(failed, ",")), "delivered to every destination whose hook did not fail", v.String(), ops)
+		}
+		k.r.Hit("mech:multi-destination-settled")
+	}
+}
+
+func (k *kase) finishMulti() {
+	if !k.dead {
+		k.op("msettle")
+	}
+	if !k.dead {
+		k.op("mrestart")
+		k.op("msettle")
+	}
+	if !k.dead && k.acks > 0 {
+		k.r.Distinct(strings.Join(k.r.CaseOps(), ";"))
+	}
+	k.e.Close()
+}
+
 func (k *kase) finish() {
+	if k.e.multi != nil {
+		k.finishMulti()
+		return
+	}
 	if k.dead {
 		k.e.Close()
 		return
@@ -578,6 +679,83 @@ func genBacklogLive(r *hk.Run, sizes []int, polls int) {
 	}
 }
 
+// A source with 2..3 sync destinations (separate queues, separate destinations, hooks on one source
+// hub), step-driven and through blobserver.CreateHandler("sync") with the real loops. Uploads during
+// which ONE handler's queue.Set fails, at every registration position; then recovery.
+func genMulti(r *hk.Run, random int) {
+	for _, mode := range []string{"step", "live"} {
+		for n := 2; n <= 3; n++ {
+			for h := 0; h <= n; h++ {
+				scripts := [][]string{
+					{"mup 1 0", fmt.Sprintf("mup 2 %d", h), "mup 3 0", "msettle"},
+					{fmt.Sprintf("mup 2 %d", h), "msettle", "mup 2 0", "msettle"},
+					{fmt.Sprintf("mup 0 %d", h), "msettle", "mrestart", "mup 1 0"},
+					{"mup 1 0", "msettle", fmt.Sprintf("mup 1 %d", h), fmt.Sprintf("mup 2 %d", h), "msettle", "mrestart", "msettle"},
+				}
+				if mode == "step" {
+					// the caveat of F-C19-2 for the handler whose own hook failed: restart before it copied
+					scripts = append(scripts,
+						[]string{fmt.Sprintf("mup 2 %d", h), "mrestart", "msettle"},
+						[]string{"mup 1 0", fmt.Sprintf("mup 2 %d", h), "mrestart", "mup 3 0", "msettle", fmt.Sprintf("mup 2 %d", h%n+1), "msettle"})
+				}
+				for _, sc := range scripts {
+					k := begin(r, fmt.Sprintf("multi n=%d %s failing-hook=%d", n, mode, h))
+					k.op(fmt.Sprintf("multi %d %s", n, mode))
+					k.live = mode == "live"
+					for _, o := range sc {
+						k.op(o)
+					}
+					r.Hit(fmt.Sprintf("mech:multi-dest-hook-failure:n=%d:pos=%d:%s", n, h, mode))
+					k.finish()
+				}
+			}
+		}
+	}
+	for c := 0; c < random; c++ {
+		rd := r.R.Fork()
+		n := 2 + rd.Intn(2)
+		mode := "step"
+		if c%8 == 0 {
+			mode = "live"
+		}
+		k := begin(r, "multi-random "+mode)
+		k.op(fmt.Sprintf("multi %d %s", n, mode))
+		k.live = mode == "live"
+		dirty := false // live: an upload with a failing hook since the last msettle (a restart now would race the loop)
+		for j, m := 0, 3+rd.Intn(14); j < m; j++ {
+			switch x := rd.Intn(100); {
+			case x < 60:
+				h := 0
+				if rd.Chance(45) {
+					h = 1 + rd.Intn(n)
+				}
+				k.op(fmt.Sprintf("mup %d %d", rd.Intn(6), h))
+				dirty = dirty || h > 0
+			case x < 80:
+				k.op("msettle")
+				dirty = false
+			default:
+				if mode == "live" && dirty {
+					k.op("msettle")
+					dirty = false
+				}
+				k.op("mrestart")
+			}
+		}
+		k.finish()
+	}
+	k := begin(r, "multi-malformed")
+	for _, o := range []string{"multi 3 step", "mup 1 4", "mup 1", "mup x 0", "mup 1 0", "multi 2 step", "up 1 ok", "dump", "msettle now", "msettle"} {
+		k.op(o)
+	}
+	k.finish()
+	k = begin(r, "multi-malformed-first-op")
+	for _, o := range []string{"multi 4 step", "multi 2", "multi 2 fast", "up 1 ok", "multi 2 step", "mup 1 0", "msettle", "dump"} {
+		k.op(o)
+	}
+	k.finish()
+}
+
 // boundary sizes: 32768 (io.Copy's buffer), 32769, 65536, 511, MaxBlobSize-1, MaxBlobSize
 func genBoundarySizes(r *hk.Run, big bool) {
 	ids := []int{4, 5, 6, 7}
@@ -825,9 +1003,14 @@ func genMalformed(r *hk.Run) {
 
 // Run is the generator + oracle of C19.
 func Run(r *hk.Run) {
-	r.Res.Rule = "cases: (a) witnesses of F-C19-1/2; (b) copy-fault matrix {all 32 fault words: ok, fetchsize, corrupt, destsize, shortread:eof0 and fetcherr/shortread/desterr x 9 error kinds (generic, os.ErrNotExist, PathError{ENOENT}, context.Canceled, DeadlineExceeded, io.EOF, io.ErrUnexpectedEOF, blobserver.ErrCorruptBlob, sorted.ErrNotFound)} x {queue.Delete ok/err} x {atomic, parked before/after queue.Delete} x {nothing, duplicate upload, failing upload, restart, other upload in between}; (c) upload matrix {nothing, acked, failed earlier upload} x {ok, queue.Set error, source error} x {parked before/after queue.Set} x 8 interleaved ops; (d) every op sequence of depth D (4 quick, 5 thorough) over a 16-op alphabet; (e) random walks over 4 blobs (ids 0..3: empty, 1 byte, two ordinary) and over 8 blobs (adding 32768/32769/65536/511 bytes) with all ops; (f) random scripts cut (crash + restart) after every prefix; (i) a zero-length / one-byte blob as the only pending item (first upload, alone after everything was delivered, only row at restart, after a failed attempt) in step and live mode, boundary sizes 511/32768/32769/65536/MaxBlobSize-1/MaxBlobSize, and all matrices for the empty, the 1-byte and an ordinary blob; (j) backlog + outage through the real runSync worker pool and the real syncLoop: 6..40 pending blobs in one batch, the source/destination failing for the whole batch, for k >= 5 of n blobs, for the first k attempts, or for a time window, then recovering (every wait under a watchdog: a runSync / syncLoop that never comes back is a finding with its ops); (g) the real syncLoop via blobserver.CreateHandler(\"sync\") with restarts; (h) malformed ops. Every case ends with restart + failure-free drain and the liveness oracle; the safety oracle runs after every op. distinct = distinct op sequences; non-trivial = at least one acknowledged upload and one copy/drain/restart"
+	r.Res.Rule = "cases: (a) witnesses of F-C19-1/2; (b) copy-fault matrix {all 32 fault words: ok, fetchsize, corrupt, destsize, shortread:eof0 and fetcherr/shortread/desterr x 9 error kinds (generic, os.ErrNotExist, PathError{ENOENT}, context.Canceled, DeadlineExceeded, io.EOF, io.ErrUnexpectedEOF, blobserver.ErrCorruptBlob, sorted.ErrNotFound)} x {queue.Delete ok/err} x {atomic, parked before/after queue.Delete} x {nothing, duplicate upload, failing upload, restart, other upload in between}; (c) upload matrix {nothing, acked, failed earlier upload} x {ok, queue.Set error, source error} x {parked before/after queue.Set} x 8 interleaved ops; (d) every op sequence of depth D (4 quick, 5 thorough) over a 16-op alphabet; (e) random walks over 4 blobs (ids 0..3: empty, 1 byte, two ordinary) and over 8 blobs (adding 32768/32769/65536/511 bytes) with all ops; (f) random scripts cut (crash + restart) after every prefix; (i) a zero-length / one-byte blob as the only pending item (first upload, alone after everything was delivered, only row at restart, after a failed attempt) in step and live mode, boundary sizes 511/32768/32769/65536/MaxBlobSize-1/MaxBlobSize, and all matrices for the empty, the 1-byte and an ordinary blob; (j) backlog + outage through the real runSync worker pool and the real syncLoop: 6..40 pending blobs in one batch, the source/destination failing for the whole batch, for k >= 5 of n blobs, for the first k attempts, or for a time window, then recovering (every wait under a watchdog: a runSync / syncLoop that never comes back is a finding with its ops); (k) a source with 2..3 sync handlers (own queue and destination each, hooks on one source hub; step-driven and via CreateHandler with the real loops): uploads during which one handler's queue.Set fails, at every registration position, then recovery – oracle per destination; (g) the real syncLoop via blobserver.CreateHandler(\"sync\") with restarts; (h) malformed ops. Every case ends with restart + failure-free drain and the liveness oracle; the safety oracle runs after every op. distinct = distinct op sequences; non-trivial = at least one acknowledged upload and one copy/drain/restart"
 	genWitnesses(r)
 	genLonePending(r)
+	if r.Thorough() {
+		genMulti(r, 3000)
+	} else {
+		genMulti(r, 300)
+	}
 	if r.Thorough() {
 		genBacklog(r, []int{6, 7, 8, 11, 20, 40}, []string{"desterr", "desterr:canceled", "fetcherr", "fetcherr:enoent", "fetcherr:notexist", "shortread:ueof", "corrupt", "fetchsize", "destsize"})
 		genBacklogLive(r, []int{6, 7, 10, 16, 25, 40}, 3)
